@@ -818,16 +818,17 @@ func (ex *Exec) callBuiltin(caller *Frame, callpos token.Pos, fn *ssa.Builtin, a
 			copy(r[len(a):], b)
 			return r
 		}
-		nc := 2 * cap(a)
-		if nc < len(a)+len(b) {
-			nc = len(a) + len(b)
-		}
+		// Go's growth policy (runtime.growslice of go1.23, incl. rounding the
+		// allocation up to a malloc size class): spare capacity decides whether a
+		// later append aliases, so it is modelled faithfully
+		et0 := fn.Type().(*types.Signature).Params().At(0).Type().Underlying().(*types.Slice).Elem()
+		nc := goGrowCap(cap(a), len(a)+len(b), elemBytes(et0))
 		r := make([]Value, len(a)+len(b), nc)
 		copy(r, a)
 		copy(r[len(a):], b)
 		var z Value
 		if nc > len(r) {
-			et := fn.Type().(*types.Signature).Params().At(0).Type().Underlying().(*types.Slice).Elem()
+			et := et0
 			z = zero(et)
 			full := r[:nc]
 			if isScalarType(et) {
@@ -999,4 +1000,47 @@ func (ex *Exec) callBuiltin(caller *Frame, callpos token.Pos, fn *ssa.Builtin, a
 	}
 	ex.unsupported("builtin %s", fn.Name())
 	return nil
+}
+
+var goSizeClasses = []int{0, 8, 16, 24, 32, 48, 64, 80, 96, 112, 128, 144, 160, 176, 192, 208, 224, 240, 256, 288, 320, 352, 384, 416, 448, 480, 512, 576, 640, 704, 768, 896, 1024, 1152, 1280, 1408, 1536, 1792, 2048, 2304, 2688, 3072, 3200, 3456, 4096, 4864, 5376, 6144, 6528, 6784, 6912, 8192, 9472, 9728, 10240, 10880, 12288, 13568, 14336, 16384, 18432, 19072, 20480, 21760, 24576, 27264, 28672, 32768}
+
+func goRoundUpSize(n int) int {
+	if n <= 32768 {
+		for _, c := range goSizeClasses {
+			if c >= n {
+				return c
+			}
+		}
+	}
+	const page = 8192
+	return (n + page - 1) / page * page
+}
+
+// goGrowCap: the capacity runtime.growslice gives a slice of oldCap that must
+// hold newLen elements of elemSize bytes.
+func goGrowCap(oldCap, newLen int, elemSize int64) int {
+	newcap := oldCap
+	doublecap := newcap + newcap
+	if newLen > doublecap {
+		newcap = newLen
+	} else {
+		const threshold = 256
+		if oldCap < threshold {
+			newcap = doublecap
+		} else {
+			for newcap < newLen {
+				newcap += (newcap + 3*threshold) >> 2
+			}
+		}
+	}
+	sz := int(elemSize)
+	if sz < 1 {
+		sz = 1
+	}
+	mem := goRoundUpSize(newcap * sz)
+	c := mem / sz
+	if c < newLen {
+		c = newLen
+	}
+	return c
 }
